@@ -124,6 +124,21 @@ CLAIMED = {
                             "NaN friction factor) are recorded in known_findings.json by call site."),
         technique="Lean 4 proof (field_simp; Real.rpow algebra) over traced split + hand update model + exhaustive combination oracle",
         design="5/C12"),
+    "C13": dict(
+        text=("Lean theorems over any ordered field about the chain of closed-form conduction steps the pin model evaluates "
+              "(conductivities = arbitrary positive numbers, i.e. whatever the temperature-dependent iteration ended with): "
+              "coolant <= clad OD <= MW <= ID for non-negative power, fuel temperatures non-decreasing from the surface to "
+              "the centre for any number of shells, film and clad drops equal q/(2 pi r_o h) and q ln(r_o/r_i)/(2 pi k), "
+              "each shell satisfies dT k = qdens d(r^2)/4, zero power gives the coolant temperature everywhere, clad "
+              "temperatures increase with power for fixed conductivities, and a weighted coolant average with weights "
+              "summing to one reproduces a uniform field.  The relations are evaluated on the temperatures the real "
+              "PinModel reports for generated pin models (conductivities recomputed from the real materials)."),
+        note=COMMON_NOTE + ("T3 hand model; the tie is relation-checking on real outputs up to the iteration tolerance "
+                            "(2e-2 K), not a bit-level correspondence, because the k-iteration is data dependent.  "
+                            "Partial: monotonicity for temperature-dependent conductivities and the radiating-gap fixed "
+                            "point are covered numerically only."),
+        technique="Lean 4 proof (linarith/positivity, list induction) over hand model + relation oracle on the real PinModel",
+        design="5/C13"),
     "C14": dict(
         text=("Lean theorems over any ordered field about the accumulation model: friction and gravity parts equal the "
               "per-length coefficient times the core length for EVERY plane list (step-size independence, closed forms "
